@@ -148,8 +148,8 @@ def run(chk):
             for i, pr in enumerate(progs2.get(kind, [])):
                 sig = json.dumps(pr, sort_keys=True)
                 if sig in base2.get(kind, ()):
-                    # quick instance: singleton commands for every program, ordered pairs for every 5th one
-                    mb = 1 if (chk.quick and i % 5) else 2
+                    # quick instance: singleton commands for every program, ordered pairs for every 10th one
+                    mb = 1 if (chk.quick and i % 10) else 2
                 elif sig in two.get(kind, ()):
                     mb = 2
                 else:
